@@ -89,7 +89,14 @@ fn q_bytes<const D: u64>(buf: &[u8], rep: usize) -> String {
 }
 fn q_typed_n<const D: u64, const N: usize>(buf: &[u8], rep: usize) -> String {
     let st = match TlvStateBorrowed::unpack(buf) { Ok(s) => s, Err(x) => return format!("nounpack:{}", e(&x)) };
-    match st.get_value_with_repetition::<Val<D, N>>(rep) {
+    let r = st.get_value_with_repetition::<Val<D, N>>(rep);
+    if rep == 0 {
+        // the `first` wrapper is repetition 0
+        let f = st.get_first_value::<Val<D, N>>();
+        assert_eq!(f.as_ref().ok().map(|v| *v as *const Val<D, N>), r.as_ref().ok().map(|v| *v as *const Val<D, N>), "get_first_value differs from repetition 0");
+        assert_eq!(f.is_err(), r.is_err());
+    }
+    match r {
         Ok(v) => { let lo = v as *const _ as usize - buf.as_ptr() as usize; format!("ok:{lo}:{}", lo + N) }
         Err(x) => e(&x),
     }
@@ -195,31 +202,40 @@ fn op_init<const D: u64>(buf: &mut [u8], sidx: usize, allow: bool) -> Result<Str
 fn op_realloc<const D: u64>(buf: &mut [u8], len: usize, rep: usize) -> Result<String, ProgramError> {
     let base = buf.as_ptr() as usize;
     let mut st = TlvStateMut::unpack(buf)?;
-    let s = st.realloc_with_repetition::<Tag<D>>(len, rep)?;
+    let s = if rep == 0 && len % 2 == 0 { st.realloc_first::<Tag<D>>(len)? } else { st.realloc_with_repetition::<Tag<D>>(len, rep)? };
     let lo = s.as_ptr() as usize - base;
     Ok(format!("{}:{}", lo, lo + s.len()))
 }
 fn op_write<const D: u64>(buf: &mut [u8], rep: usize, v: &[u8]) -> Result<String, ProgramError> {
     let mut st = TlvStateMut::unpack(buf)?;
-    let s = st.get_bytes_with_repetition_mut::<Tag<D>>(rep)?;
+    let s = if rep == 0 && v.len() % 2 == 0 { st.get_first_bytes_mut::<Tag<D>>()? } else { st.get_bytes_with_repetition_mut::<Tag<D>>(rep)? };
     if s.len() != v.len() { return Err(ProgramError::InvalidArgument); }
     s.copy_from_slice(v);
     Ok("()".into())
 }
 fn op_typed_n<const D: u64, const N: usize>(buf: &mut [u8], rep: usize, v: &[u8]) -> Result<String, ProgramError> {
     let mut st = TlvStateMut::unpack(buf)?;
-    let r = st.get_value_with_repetition_mut::<Val<D, N>>(rep)?;
+    let r = if rep == 0 && v.first().map_or(true, |b| b % 2 == 0) { st.get_first_value_mut::<Val<D, N>>()? } else { st.get_value_with_repetition_mut::<Val<D, N>>(rep)? };
     *r = Val(v.try_into().expect("typed write value length"));
     Ok("()".into())
 }
 fn op_typed<const D: u64>(buf: &mut [u8], sidx: usize, rep: usize, v: &[u8]) -> Result<String, ProgramError> { with_size!(sidx, op_typed_n, D, buf, rep, v) }
 fn op_pack<const D: u64>(buf: &mut [u8], rep: usize, v: &[u8]) -> Result<String, ProgramError> {
     let mut st = TlvStateMut::unpack(buf)?;
-    st.pack_variable_len_value_with_repetition(&Raw::<D>(v.to_vec()), rep)?;
+    if rep == 0 && v.len() % 2 == 0 { st.pack_first_variable_len_value(&Raw::<D>(v.to_vec()))?; } else { st.pack_variable_len_value_with_repetition(&Raw::<D>(v.to_vec()), rep)?; }
     Ok("()".into())
 }
 fn op_allocpack<const D: u64>(buf: &mut [u8], allow: bool, v: &[u8]) -> Result<String, ProgramError> {
     let mut st = TlvStateMut::unpack(buf)?;
+    {
+        // the trait's provided `pack`: exact-size destination only
+        let r = Raw::<D>(v.to_vec());
+        let mut exact = vec![0u8; v.len()];
+        assert!(r.pack(&mut exact).is_ok() && exact == v, "VariableLenPack::pack into an exact-size slice");
+        let mut longer = vec![0u8; v.len() + 1];
+        assert!(r.pack(&mut longer).is_err(), "VariableLenPack::pack must reject a destination of another size");
+        if !v.is_empty() { let mut shorter = vec![0u8; v.len() - 1]; assert!(r.pack(&mut shorter).is_err()); }
+    }
     let rep = st.alloc_and_pack_variable_len_entry(&Raw::<D>(v.to_vec()), allow)?;
     Ok(format!("{rep}"))
 }
@@ -228,6 +244,10 @@ fn op_get<const D: u64>(buf: &[u8], rep: usize) -> Result<String, ProgramError> 
     let s = st.get_bytes_with_repetition::<Tag<D>>(rep)?;
     let v: Raw<D> = st.get_variable_len_value_with_repetition::<Raw<D>>(rep)?;
     assert_eq!(&v.0[..], s);
+    if rep == 0 {
+        assert_eq!(st.get_first_bytes::<Tag<D>>()?.as_ptr(), s.as_ptr(), "get_first_bytes differs from repetition 0");
+        assert_eq!(st.get_first_variable_len_value::<Raw<D>>()?.0, v.0, "get_first_variable_len_value differs from repetition 0");
+    }
     let (lo, hi) = range_of(buf, s);
     Ok(format!("{lo}:{hi}:{}", hex(s)))
 }
